@@ -62,6 +62,9 @@ T = [
 ("C03","fix: MemFS.OpenFile(O_CREATE|O_EXCL) on an existing file the user cannot write answered permission denied","MemFS OpenFile(O_CREATE|O_EXCL) on an existing file the user cannot write: EACCES instead of EEXIST"),
 ("C01","fix: OrefaFS.Rename of a missing name onto itself returned nil","OrefaFS.Rename(missing, same missing name) returned nil (rename(2): ENOENT)"),
 ("C03","fix: MemFS Chown, Lchown and File.Chown did not follow the rules of chown(2)","MemFS ownership changes by a non-administrator: File.Chown tested write permission instead of ownership (any writer changed owner and group), Chown/Lchown answered EPERM before resolving the path and refused what chown(2) allows (-1,-1 by anyone; the owner naming his uid and his own or the current group), and -1 was stored as an id"),
+("C03","fix: MemFS.Rename moved a directory to another directory without write permission on the moved directory","MemFS.Rename(dir, otherdir/dir) by a user without write permission on the moved directory succeeded (rename(2): EACCES)"),
+("C03","fix: MemFS.MkdirAll checked the permissions of the first existing directory only","MemFS.MkdirAll with two or more missing levels and a perm that gives the owner no write or search bit created every level (os.MkdirAll: EACCES at the second level)"),
+("C03","fix: MemFS ignored the sticky bit of directories","MemFS Remove, RemoveAll and Rename in a directory with the sticky bit: entries owned by somebody else were removed, moved away or replaced by any user who can write the directory (Linux: EPERM)"),
 ]
 log = subprocess.check_output(['git','-C','/repo','log','--format=%h %s','adfd2e3..HEAD']).decode().strip().split('\n')
 subj = {}
